@@ -58,7 +58,7 @@ func (r *Result) Violate(key string, c any, format string, a ...any) {
 	r.total++
 	// a deviation that costs a watchdog timeout each time, or a flood of deviations, ends the replay
 	// early: the verdict is already decided and the remaining cases would only burn time
-	if r.total >= 60 || (r.seen[key] >= 3 && (strings.Contains(key, "blocked") || strings.Contains(key, "stalled"))) {
+	if r.total >= 60 || (r.seen[key] >= 3 && (strings.Contains(key, "blocked") || strings.Contains(key, "stalled") || strings.Contains(key, "-failed"))) {
 		atomic.StoreInt32(&StopEarly, 1)
 	}
 	if r.seen[key] > 20 {
@@ -95,6 +95,9 @@ func (r *Result) Write(path string) {
 
 // StopEarly is set when continuing the replay is pointless (see Violate).
 var StopEarly int32
+
+// Stopped reports whether the replay should end early.
+func Stopped() bool { return atomic.LoadInt32(&StopEarly) != 0 }
 
 // ReadCases streams ndjson records from path into fn.
 func ReadCases(path string, fn func(raw json.RawMessage) error) error {
